@@ -112,6 +112,7 @@ fn log_call(op: &str, api: &str, h: &str, hk: &str, v: i64, newh: &str) {
     if t < st.th.len() {
         st.th[t].in_call = Some(json!({"t":t,"op":op,"api":api,"h":h}));
         st.th[t].call_ops = 0;
+        st.th[t].tokenless = false;
     }
     st.api.push(ev);
 }
@@ -548,6 +549,7 @@ fn register_layout(hname: &str, h: &H) {
                     }
                 }
                 "signal" => st.signal_addr = loc.addr,
+                "gptr" => st.gptr_addr = loc.addr,
                 _ => {}
             }
         }
@@ -608,6 +610,7 @@ pub fn run_opt(
         st.live_tokens = 0;
         st.tokens.clear();
         st.leaving.clear();
+        st.gptr_addr = 0;
     }
     payload::reset_serials();
     *TBL.lock().unwrap_or_else(|p| p.into_inner()) = Some(HashMap::new());
